@@ -514,6 +514,9 @@ def r4_no_lost_status(repo=None):
     return r
 
 
+# queries and pure functions: a test of their result is not the observation of an I/O failure (access() finding a file is a refusal)
+PURE_EXTERNAL = ("access", "stat", "lstat", "strcmp", "strncmp", "strstr", "strlen", "strchr", "strrchr", "memcmp", "fabs", "fabsl", "floor",
+                 "floorl", "ceil", "ceill", "isnan", "isinf", "llabs", "abs", "time")
 IO_EXTERNAL = ("mkdir", "_mkdir", "rename", "remove", "unlink", "rmdir", "fopen", "fclose", "fwrite", "fflush", "fsync", "open", "close", "write")
 
 
@@ -645,6 +648,11 @@ def r5_failure_flag_means_io_failure(repo=None, rid="C10.R5"):
                 r.ok(site, "on the failure side of a test of an I/O status (`%s`)" % [c for c in conds if cond_is_io(c, fn)][0].nsrc[:50])
             elif not had_any:
                 raise AnalysisError("%s: has_failure is set unconditionally at line %s: not decided" % (fname, node.line))
+            elif any(x.kind == "CallExpr" and (not x.callee or (x.callee not in tu.functions and not is_ext_io(x) and x.callee not in PURE_EXTERNAL))
+                     for c in conds for x in c.walk()):
+                # the status of a call through a pointer (a table of close functions) or of a function this rule has no entry for
+                raise AnalysisError("%s: has_failure at line %s is set under `%s`, the status of a call that is not resolved: not decided" % (
+                    fname, node.line, conds[0].nsrc[:50]))
             else:
                 r.violation(LIB, fname, "%s under `%s`" % (node.nsrc[:40], conds[0].nsrc[:50] if conds else "the success side of the tests around it"), "the sticky failure flag is set where no I/O call "
                             "was seen to fail (a refusal, a count): every later write is refused and at close the open file - intact data "
